@@ -80,7 +80,9 @@ def build_model():
     return rc == 0 and os.path.exists(VMODEL), out
 
 
-COVER_FLAGS = "-cover -coverpkg=github.com/amzn/ion-go/ion,github.com/amzn/ion-go/cmd/ion-go"
+# the main package must be among the instrumented ones, or the counters are never written
+COVER_FLAGS = "-cover -coverpkg=./cmd/vh,github.com/amzn/ion-go/ion"
+COVER_FLAGS_CLI = "-cover -coverpkg=./ion,./cmd/ion-go"
 
 
 def cover_mode():
